@@ -93,6 +93,12 @@ func (g *Gen) call(in ssa.Instruction, c *ssa.CallCommon, rt types.Type) Val {
 		} else {
 			sig = c.Signature()
 			key = ""
+			// a value of a named function type: the contract attached to the type name, if any
+			if n, ok := types.Unalias(c.Value.Type()).(*types.Named); ok && n.Obj().Pkg() != nil {
+				if k := n.Obj().Pkg().Name() + "." + n.Obj().Name(); g.E.contracts.Funcs[k] != nil {
+					key = k
+				}
+			}
 		}
 	}
 	for _, a := range c.Args {
@@ -113,6 +119,26 @@ func (g *Gen) call(in ssa.Instruction, c *ssa.CallCommon, rt types.Type) Val {
 	}
 	if v, ok := g.atomicCall(key, args, rt, pos, text); ok {
 		return v
+	}
+	if key == "errors.As" && len(c.Args) == 2 {
+		// errors.As(err, &target): the result is unconstrained; when it is true the target holds some value
+		res := g.havocVal(rt, "ret.errors.As")
+		if mi, ok := c.Args[1].(*ssa.MakeInterface); ok {
+			if tv, ok := g.vals[mi.X]; ok && tv.Addr == nil {
+				if p, ok := mi.X.Type().Underlying().(*types.Pointer); ok {
+					if _, isStruct := p.Elem().Underlying().(*types.Struct); isStruct {
+						g.havocStructAt(p.Elem(), tv.S) // target struct on the heap: any value afterwards
+					}
+				}
+			} else if ok && tv.Addr != nil {
+				nv := g.havocVal(tv.Addr.ElemT, "as.target")
+				if nv.Addr == nil {
+					old := g.load(g.cur, tv, tv.Addr.ElemT)
+					g.storeTo(g.cur, tv, tv.Addr.ElemT, Val{T: tv.Addr.ElemT, S: fmt.Sprintf("(ite %s %s %s)", res.S, nv.S, old.S)})
+				}
+			}
+		}
+		return res
 	}
 	fc := g.E.contracts.Funcs[key]
 	if fc == nil && callee != nil && callee.Signature.Recv() != nil {
